@@ -40,9 +40,11 @@ var c13Leaves = []string{
 	"Level", "Count", "Ratio", "Flag", "Name", "Timeout", "Names", "Nums", "Limits", "Labels",
 }
 
-// Slices whose element is a struct that unmarshals itself from text.  They are
-// expressible in all four formats; see the finding keyed slice-of-text-struct.
-var c13TextStructSlices = []string{"[]Stamp", "[]time.Time"}
+// Slices whose element is a struct that unmarshals itself from text and that
+// all four formats can spell; see the finding keyed slice-of-text-struct.
+// ([]Stamp is not here: go-toml v1 cannot fill a slice of text-unmarshalable
+// structs from an array of strings, whatever dials does.)
+var c13TextStructSlices = []string{"[]time.Time", "[]time.Time"}
 
 func c13Profile(withTextStructSlices bool) shape.Profile {
 	leaves := append([]string{}, c13Leaves...)
@@ -720,6 +722,15 @@ func genC13Corrupt(t *rapid.T) C13CorruptCase {
 	cd := cands[rapid.IntRange(0, len(cands)-1).Draw(t, "corrupt_kind")]
 	c.Kind = cd.kind
 	c.Path = cd.ns[rapid.IntRange(0, len(cd.ns)-1).Draw(t, "corrupt_node")].path
+	if err := corruptTexts(&c, trees, base); err != nil {
+		t.Fatalf("%v", err)
+	}
+	return c
+}
+
+// corruptTexts renders the valid documents and, after replacing the node at
+// c.Path by the corrupt token of c.Kind, the corrupted ones (same layout).
+func corruptTexts(c *C13CorruptCase, trees map[string]*dnode, base pick) error {
 	// A double quote that is never closed must stay the only double quote of a
 	// YAML or TOML document: a later one would close the string (YAML strings
 	// span lines) or hide in a comment.  Everything else is then written with
@@ -733,17 +744,20 @@ func genC13Corrupt(t *rapid.T) C13CorruptCase {
 		c.Valid[f] = render(f, trees[f], rp.pick)
 		n := trees[f].find(c.Path)
 		if n == nil {
-			t.Fatalf("path %s not found in the %s tree", c.Path, f)
+			return fmt.Errorf("harness: path %s not found in the %s tree", c.Path, f)
+		}
+		if !eligible(c.Kind, n) {
+			return fmt.Errorf("harness: corruption %s does not apply to %s", c.Kind, c.Path)
 		}
 		tok := corruptToken(c.Kind, f, n)
 		n.kind, n.raw, n.kids = 'r', tok, nil
 		rp.replay = true
 		c.Bad[f] = render(f, trees[f], rp.pick)
 		if c.Kind == "unterminated-string" && (f == "yaml" || f == "toml") && strings.Count(c.Bad[f], `"`) != 1 {
-			t.Fatalf("harness: the unterminated quote is not the only double quote of the %s document:\n%s", f, c.Bad[f])
+			return fmt.Errorf("harness: the unterminated quote is not the only double quote of the %s document:\n%s", f, c.Bad[f])
 		}
 	}
-	return c
+	return nil
 }
 
 func runC13Corrupt(c C13CorruptCase) vrt.Verdict {
